@@ -18,7 +18,7 @@ LEVEL_TEXT = ('Exploration: documents are rendered (block and flow, G-doc render
               'one node must map to one object and distinct container nodes to distinct objects (Safe/Full/Unsafe loaders, both '
               'back-ends); forward and cross-document aliases and duplicate anchors on scalar, sequence and mapping nodes must end '
               'in ComposerError; a container as its own (or any) mapping key and a cycle running only through python/tuple nodes must '
-              'end in ConstructorError - never RecursionError, a hang or a silently different graph.')
+              'end in ConstructorError - never RecursionError, a hang or a silently different graph.' + ' YAMLObject nodes exist for every loader level, and mapping keys may be constructed objects that refer to themselves directly or through a list (the identity walk follows keys, too).')
 LEVEL_NOTE = ('Held on the documents generated. Scalars are exempt from the identity comparison (CPython may intern them), empty tuples '
               'likewise.')
 TECHNIQUE = 'runtime monitoring: identity-relation monitor over simultaneous walks of generator model, composed node graph and constructed objects'
